@@ -20,6 +20,7 @@ mod c13;
 mod c14;
 mod c15;
 mod c16;
+mod c17;
 mod c18;
 mod c19;
 mod c20;
@@ -110,6 +111,7 @@ fn main() {
                     "c13" => c13::replay(c, &setup),
                     "c14" => c14::replay(c),
                     "c16" => c16::replay(c),
+                    "c17" => c17::replay(c),
                     "c20" => c20::replay(c),
                     "c15" => c15::replay(c, &ls),
                     _ => {
@@ -127,6 +129,7 @@ fn main() {
                 "c06" => c06::record(seed, n, cli.as_deref().expect("--cli")),
                 "c16" => c16::record(seed, n, cli.as_deref()),
                 "c20" => c20::record(seed, n),
+                "c17" => c17::record(seed, args.iter().any(|a| a == "--thorough")),
                 "c18" => c18::record(cli.as_deref().expect("--cli"), args.iter().any(|a| a == "--thorough")),
                 "c03" => c03::record(seed, n),
                 "c04" => c04::record(seed, n),
@@ -142,6 +145,9 @@ fn main() {
                 }
             };
             write_out(&args[3], &out);
+        }
+        ("export", "units") => {
+            std::fs::write(&args[3], serde_json::to_string(&c17::export()).unwrap()).unwrap();
         }
         _ => {
             eprintln!("unknown command");
